@@ -124,6 +124,36 @@ fn sweeps(thorough: bool) -> Vec<Sweep> {
 			})
 		}),
 	});
+	// the width attributed to every scalar by the layout decision: the smallest Limit::Width under which the one-line
+	// form is kept (scanned upwards from 4: no one-character string in brackets is narrower than 5)
+	fn min_inline(v: &Value, obj: bool) -> i64 {
+		for t in 4..=40usize {
+			let mut o = json_syntax::print::Options::compact();
+			if obj {
+				o.object_limit = Some(json_syntax::print::Limit::Width(t));
+			} else {
+				o.array_limit = Some(json_syntax::print::Limit::Width(t));
+			}
+			match guarded(|| v.print_with(o).to_string()) {
+				Ok(s) if !s.contains('\n') => return t as i64,
+				Ok(_) => (),
+				Err(_) => return -2,
+			}
+		}
+		-1
+	}
+	v.push(Sweep { sw: json!(["width_str"]), lo: 0, hi: 0x10ffff, f: Box::new(move |x| ch(x).map(|c| ("width".to_string(), vec![min_inline(&Value::Array(vec![Value::String(c.to_string().into())]), false)]))) });
+	v.push(Sweep {
+		sw: json!(["width_key"]),
+		lo: 0,
+		hi: 0x10ffff,
+		f: Box::new(move |x| {
+			ch(x).map(|c| {
+				let o: json_syntax::Object = vec![Entry::new(c.to_string().as_str().into(), Value::Null)].into_iter().collect();
+				("width".to_string(), vec![min_inline(&Value::Object(o), true)])
+			})
+		}),
+	});
 	v
 }
 
